@@ -353,6 +353,16 @@ def build_actor(case):
                             head_config={"hidden_size": [8], "activation": "ReLU", "min_mlp_nodes": 4, "max_mlp_nodes": 64},
                             latent_dim=8, action_std_init=case["std_init"], squash_output=bool(case["squash"]))
     perturb(actor, case["wseed"], case["wscale"])
+    mut = case.get("mut")
+    if mut:
+        # the policy networks are evolvable: "every network weights" includes networks that went through an architecture mutation
+        # (the latent mutations re-create encoder AND distribution head inside the actor)
+        methods = list(actor.mutation_methods)
+        name = methods[case["wseed"] % len(methods)] if mut == "any" else mut
+        if name in methods:
+            np.random.seed(case["wseed"] % (2 ** 32))
+            getattr(actor, name)()
+            case["_mutated"] = name
     return actor, space
 
 
@@ -363,6 +373,8 @@ def run_actor(case, ctx):
         ctx.label(f"setup-failed:{type(e).__name__}")
         return
     squash = bool(case["squash"]) and isinstance(space, spaces.Box)
+    if case.pop("_mutated", None):
+        ctx.label("actor-after-architecture-mutation")
     kind = act_kind(case["act"], squash, single=False)
     single = act_kind(case["act"], squash) != kind
     B = case["B"]
@@ -936,7 +948,8 @@ def actor_strategy(draw, tier):
             "std_init": draw(st.sampled_from([-2.0, -1.0, -0.5, 0.0, 0.0, 0.5])) if act["k"] == "box" else 0.0,
             "squash": squash, "mask": draw(st.integers(0, 1)), "mask_density": draw(st.sampled_from([0.2, 0.5, 0.8])),
             "mask_form": draw(st.sampled_from(["numpy", "bool", "tensor", "object"])),
-            "K": draw(st.integers(3, 12)), "oseed": draw(st.integers(0, 9999)), "tseed": draw(st.integers(0, 9999))}
+            "K": draw(st.integers(3, 12)), "oseed": draw(st.integers(0, 9999)), "tseed": draw(st.integers(0, 9999)),
+            "mut": draw(st.sampled_from([None, None, None, "add_latent_node", "remove_latent_node", "any"]))}
 
 
 @st.composite
@@ -1055,7 +1068,7 @@ PROPERTY = Property(
         "through StochasticActor.action_log_prob; PPO.learn through PPO.evaluate_actions (if a refactor removes these names the "
         "label learn-reeval:* drops to zero and the direct get_action / evaluate_actions clauses still decide)",
     ],
-    wanted_labels=["kind=discrete", "kind=discrete+mask", "kind=multidiscrete", "kind=multidiscrete+mask", "kind=multibinary",
+    wanted_labels=["actor-after-architecture-mutation", "kind=discrete", "kind=discrete+mask", "kind=multidiscrete", "kind=multidiscrete+mask", "kind=multibinary",
                    "kind=multibinary+mask", "kind=box", "kind=box+squash", "kind=box1", "kind=multidiscrete1", "kind=multibinary1",
                    "single-component", "masked-draws", "reeval:same_weights", "reeval:new_weights", "learn-reeval:same_weights", "learn-reeval:new_weights"],
 )
